@@ -35,7 +35,7 @@ fn worker_main(prop: &str, tier: Tier) {
     monitor::install_hook();
     let stdin = std::io::stdin();
     let stdout = std::io::stdout();
-    let directed = props::directed(prop);
+    let mut directed: Option<Vec<props::Doc>> = None;
     for line in stdin.lock().lines() {
         let line = match line {
             Ok(l) => l,
@@ -63,7 +63,10 @@ fn worker_main(prop: &str, tier: Tier) {
         }
         let doc = match base {
             "G" => props::generate(prop, arg.parse().expect("HARNESS: seed"), tier),
-            "X" => directed[arg.parse::<usize>().expect("HARNESS: idx")].clone(),
+            "X" => {
+                let d = directed.get_or_insert_with(|| props::directed(prop));
+                d[arg.parse::<usize>().expect("HARNESS: idx")].clone()
+            }
             "D" => serde_json::from_str(&arg).expect("HARNESS: doc"),
             "P" => {
                 // generate only
